@@ -43,6 +43,29 @@ class Module:
         self.classes = {}       # name -> ClassInfo
         self.imports = {}       # local name -> ('module', modname) | ('from', modname, attr)
         self._scan_body(self.tree.body, None)
+        self.expanded = []      # functions instantiated from an exec template (descriptions)
+        self._expand_exec_template()
+
+    def _expand_exec_template(self):
+        """sharedctypes builds its property accessors at import time: `exec(template % ((name,) * 7), d)` in
+        make_property(name), used in class bodies as `value = make_property('value')`.  The extraction does the
+        same instantiation on the template text of the real source, for the names the class bodies use, and
+        registers the resulting functions (get<name>, set<name>) as functions of the module"""
+        t = self.consts.get('template')
+        if not (isinstance(t, ast.Constant) and isinstance(t.value, str) and 'def get%s' in t.value):
+            return
+        names = set()
+        for ci in self.classes.values():
+            for v in ci.attrs.values():
+                if isinstance(v, ast.Call) and isinstance(v.func, ast.Name) and v.func.id == 'make_property' \
+                        and len(v.args) == 1 and isinstance(v.args[0], ast.Constant):
+                    names.add(v.args[0].value)
+        for n in sorted(names):
+            src = t.value % ((n,) * t.value.count('%s'))
+            for node in ast.parse(src).body:
+                if isinstance(node, ast.FunctionDef):
+                    self.funcs[node.name] = node
+                    self.expanded.append('%s.%s instantiated from the exec template for %r' % (self.name, node.name, n))
 
     # static evaluation of module/class level `if` tests -------------------
     def _static_test(self, test):
